@@ -501,9 +501,14 @@ func rulesC14(c *Ctx) {
 	}
 	c.Floor("C14.SEEKTAG", 6)
 
+	ruleC14Reposition(c, cts, isCT)
 	ruleC14Empty(c)
 	ruleC14Direction(c, cts)
 	ruleC14Wrap(c)
+}
+
+func kpClassify(c *Ctx, v ssa.Value) kclass {
+	return newKeyProv(c).classify(v, nil, 0)
 }
 
 func derivesFromParam(v ssa.Value, prm ssa.Value, depth int) bool {
@@ -732,6 +737,28 @@ func ruleC14Direction(c *Ctx, cts []cursorType) {
 			if !back {
 				ok = false
 				why = "reverse Seek never steps back: landing after the target must move to the previous key"
+			} else {
+				// the step back must also happen when bbolt's Seek ran off the end (nil key): then the
+				// last element is the answer
+				sfi := ComputeFacts(seekFn)
+				for _, call := range callsIn(seekFn) {
+					isBack := isCallTo(call, prev)
+					if cal, _ := calleeOf(call.Common()); cal != nil && cal == nextFn.Object() {
+						isBack = true
+					}
+					if !isBack {
+						continue
+					}
+					if sfi.HoldsWhere(call.Block(), func(f Fact) bool {
+						if f.Kind != "nonnil" || !f.Pol {
+							return false
+						}
+						return kpClassify(c, f.V)&kRaw != 0
+					}) {
+						ok = false
+						why = "reverse Seek steps back only when bbolt's Seek returned a key: seeking past the last element must land on the last element, not report exhaustion"
+					}
+				}
 			}
 		}
 		if ok && d == "forward" && seekFn != nil {
@@ -826,4 +853,60 @@ func ruleC14Wrap(c *Ctx) {
 func isLLRB(t types.Type) bool {
 	n := namedOf(t)
 	return n != nil && n.Obj().Pkg() != nil && n.Obj().Pkg().Path() == "github.com/biogo/store/llrb"
+}
+
+// ruleC14Reposition: whenever a cursor object replaces its underlying bolt cursor, it must also
+// re-establish its position field on every path; otherwise it keeps pointing at an element of the
+// previous set.
+func ruleC14Reposition(c *Ctx, cts []cursorType, isCT map[*types.Named]bool) {
+	p := c.P
+	cursorT := p.ExtNamed(bboltPath, "Cursor")
+	n := 0
+	for _, ct := range cts {
+		if ct.validFld == nil {
+			continue
+		}
+		for i := 0; i < ct.named.NumMethods(); i++ {
+			fn := p.SSA.FuncValue(ct.named.Method(i))
+			if fn == nil || fn.Blocks == nil {
+				continue
+			}
+			// does it store into a *bbolt.Cursor field of the receiver?
+			var repl *ssa.Store
+			for _, b := range fn.Blocks {
+				for _, in := range b.Instrs {
+					if st, ok := in.(*ssa.Store); ok {
+						if f, base := fieldOfAddr(st.Addr); f != nil && base == ssa.Value(fn.Params[0]) {
+							if pt, ok := f.Type().(*types.Pointer); ok && namedOf(pt.Elem()) == cursorT {
+								repl = st
+							}
+						}
+					}
+				}
+			}
+			if repl == nil {
+				continue
+			}
+			n++
+			c.Analysed(FnName(fn))
+			isPos := func(in ssa.Instruction) bool {
+				st, ok := in.(*ssa.Store)
+				if !ok {
+					return false
+				}
+				f, _ := fieldOfAddr(st.Addr)
+				return sameVar(f, ct.validFld)
+			}
+			ri := reachWithoutFrom(fn, repl, isPos)
+			ok := true
+			for _, r := range returnsOf(fn) {
+				if ri.Reaches(r) {
+					ok = false
+				}
+			}
+			c.Check(ok, "C14.REPOSITION", FnName(fn), p.Pos(repl.Pos()), "after replacing the underlying bolt cursor the position field is assigned on every path", "the underlying bolt cursor is replaced but on some path the position field keeps its old value: an empty set then looks positioned on the previous row's element")
+		}
+	}
+	c.Floor("C14.REPOSITION", 1)
+	_ = isCT
 }
